@@ -17,16 +17,17 @@ variable {α : Type}
 /-! ### The source tie -/
 
 /-- The snapshot loop of the interpreter is a fold when the bodies agree and the
-body never returns or raises. -/
-theorem snapLoop_eq (bodyI : St α → Pair → St α × Sig) (bodyK : KWorld α → Pair → KWorld α) (ix : Idx)
-    (h : ∀ k q, ∃ sg, (sg = Sig.norm ∨ sg = Sig.cont) ∧ bodyI ⟨k, ix⟩ q = (⟨bodyK k q, ix⟩, sg)) :
-    ∀ (qs : List Pair) (k : KWorld α), snapLoop bodyI qs ⟨k, ix⟩ = (⟨qs.foldl bodyK k, ix⟩, .norm) := by
+body never returns or raises (`emb`: how the model's loop state sits in the
+interpreter's state). -/
+theorem snapLoop_eq {σ : Type} (emb : σ → St α) (bodyI : St α → Pair → St α × Sig) (bodyK : σ → Pair → σ)
+    (h : ∀ s q, ∃ sg, (sg = Sig.norm ∨ sg = Sig.cont) ∧ bodyI (emb s) q = (emb (bodyK s q), sg)) :
+    ∀ (qs : List Pair) (s : σ), snapLoop bodyI qs (emb s) = (emb (qs.foldl bodyK s), .norm) := by
   intro qs
   induction qs with
-  | nil => intro k; rfl
+  | nil => intro s; rfl
   | cons q qs ih =>
-    intro k
-    obtain ⟨sg, hsg, hb⟩ := h k q
+    intro s
+    obtain ⟨sg, hsg, hb⟩ := h s q
     unfold snapLoop
     rw [hb]
     rcases hsg with rfl | rfl <;> simp only [List.foldl_cons] <;> exact ih _
@@ -37,7 +38,7 @@ theorem body_modified (rec : Rec α) (p : Pair) (v : AVal α) (ix : Idx) (k : KW
     interp rec p (.new v)
       (.seq (.ite .partnerDead .cont .skip)
         (.ite (.not (.lockedAtPartner true)) (.tryPass true (.act .setPartner)) .skip))
-      (some q) ⟨k, ix⟩ = (⟨visitK rec (.assign v) k q, ix⟩, sg) := by
+      (some q) { k := k, idx := ix } = ({ k := visitK rec (.assign v) k q, idx := ix }, sg) := by
   unfold visitK
   by_cases hd : q.1 ∈ k.dead
   · exact ⟨.cont, Or.inr rfl, by simp [interp, evalCond, hd]⟩
@@ -55,33 +56,37 @@ def normIdx (e : Event α) : Slice :=
   | .slc a b c => ⟨some a, some b, some c⟩
 
 /-- Loop body of `_sync_trait_items_modified`. -/
-theorem body_items (rec : Rec α) (p : Pair) (e : Event α) (k : KWorld α) (q : Pair) :
+theorem body_items (rec : Rec α) (p : Pair) (e : Event α) (s : KWorld α × List Pair) (q : Pair) :
     ∃ sg, (sg = Sig.norm ∨ sg = Sig.cont) ∧
     interp rec p (.event e)
       (.seq (.ite .partnerDead .cont .skip)
         (.ite (.not (.lockedAtPartner true))
-          (.tryPass true (.seq (.ite .sameListObject .cont .skip)
-            (.ite (.or .eventAdded .stepIsNone) (.act .partnerSetSlice) (.act .partnerDelSlice)))) .skip))
-      (some q) ⟨k, .slice (normIdx e)⟩ =
-    (⟨visitK rec (.mutate (eventOp e)) k q, .slice (normIdx e)⟩, sg) := by
-  unfold visitK
+          (.tryPass true (.seq (.ite .partnerListUpdated .cont .skip) (.seq (.act .markUpdated)
+            (.ite (.or .eventAdded .stepIsNone) (.act .partnerSetSlice) (.act .partnerDelSlice))))) .skip))
+      (some q) { k := s.1, idx := .slice (normIdx e), upd := s.2 } =
+    ({ k := (visitU rec (.mutate (eventOp e)) s q).1, idx := .slice (normIdx e),
+       upd := (visitU rec (.mutate (eventOp e)) s q).2 }, sg) := by
+  obtain ⟨k, U⟩ := s
+  unfold visitU
   by_cases hd : q.1 ∈ k.dead
   · exact ⟨.cont, Or.inr rfl, by simp [interp, evalCond, hd]⟩
-  · refine ⟨.norm, Or.inl rfl, ?_⟩
-    by_cases hl : q ∈ k.w.locked
-    · simp [interp, evalCond, hd, hl]
-    · have hop : (if (!e.added.isEmpty || (normIdx e).step.isNone) = true
-          then Op.setSlice (normIdx e) e.added else Op.delSlice (normIdx e)) = eventOp e := by
-        unfold eventOp normIdx
-        cases e.index with
-        | idx n => simp
-        | slc a b c => cases e.added <;> simp
-      cases ha : e.added.isEmpty <;> cases hs : (normIdx e).step.isNone <;>
-        simp only [ha, hs, Bool.not_true, Bool.not_false, Bool.or_true, Bool.or_false, Bool.false_eq_true,
-          if_true, if_false] at hop <;>
-        (cases hr : rec k q (.mutate (eventOp e)) with
-          | error x => simp [interp, evalCond, doAct, callRec, hd, hl, ha, hs, hop, hr]
-          | ok x => obtain ⟨k', r⟩ := x; simp [interp, evalCond, doAct, callRec, hd, hl, ha, hs, hop, hr])
+  · by_cases hl : q ∈ k.w.locked
+    · exact ⟨.norm, Or.inl rfl, by simp [interp, evalCond, hd, hl]⟩
+    · by_cases hu : q ∈ U
+      · exact ⟨.cont, Or.inr rfl, by simp [interp, evalCond, hd, hl, hu]⟩
+      · refine ⟨.norm, Or.inl rfl, ?_⟩
+        have hop : (if (!e.added.isEmpty || (normIdx e).step.isNone) = true
+            then Op.setSlice (normIdx e) e.added else Op.delSlice (normIdx e)) = eventOp e := by
+          unfold eventOp normIdx
+          cases e.index with
+          | idx n => simp
+          | slc a b c => cases e.added <;> simp
+        cases ha : e.added.isEmpty <;> cases hs : (normIdx e).step.isNone <;>
+          simp only [ha, hs, Bool.not_true, Bool.not_false, Bool.or_true, Bool.or_false, Bool.false_eq_true,
+            if_true, if_false] at hop <;>
+          (cases hr : rec k q (.mutate (eventOp e)) with
+            | error x => simp [interp, evalCond, doAct, callRec, hd, hl, hu, ha, hs, hop, hr]
+            | ok x => obtain ⟨k', r⟩ := x; simp [interp, evalCond, doAct, callRec, hd, hl, hu, ha, hs, hop, hr])
 
 theorem partners_lock (w : World α) (p r : Pair) : (w.lock p).partners r = w.partners r := rfl
 
@@ -94,31 +99,33 @@ theorem handlerModified_is_source (rec : Rec α) (k : KWorld α) (p : Pair) (v :
   · simp only [Bool.not_eq_true] at he
     simp only [interp, evalCond, he, doAct, St.setW, partners_lock, Bool.not_false, Bool.not_true, if_true,
       Bool.false_eq_true, if_false]
-    rw [snapLoop_eq _ (visitK rec (.assign v)) (initIdx (.new v)) (body_modified rec p v _)]
+    rw [snapLoop_eq (fun k => ({ k := k, idx := initIdx (.new v) } : St α)) _ (visitK rec (.assign v))
+      (body_modified rec p v _)]
     simp only []
     by_cases hp : p ∈ (List.foldl (visitK rec (.assign v)) { k with w := k.w.lock p } (k.w.partners p)).w.locked <;>
       simp [hp]
 
 theorem norm_index (rec : Rec α) (p : Pair) (e : Event α) (k : KWorld α) :
     interp rec p (.event e) (.ite (.not .indexIsSlice) (.act .indexToSlice) .skip) none
-      ⟨k, initIdx (.event e)⟩ = (⟨k, .slice (normIdx e)⟩, .norm) := by
+      { k := k, idx := initIdx (.event e) } = ({ k := k, idx := .slice (normIdx e) }, .norm) := by
   unfold initIdx normIdx
   cases h : e.index <;> simp [interp, evalCond, doAct, h]
 
 /-- `_sync_trait_items_modified` (hand-written) is the interpretation of its source text. -/
 theorem handlerItems_is_source (rec : Rec α) (k : KWorld α) (p : Pair) (e : Event α) :
     handlerItems rec k p e = runHandler rec Generated.SyncProg.syncTraitItemsModified k p (.event e) := by
-  unfold handlerItems handlerK runHandler Generated.SyncProg.syncTraitItemsModified
+  unfold handlerItems handlerU runHandler Generated.SyncProg.syncTraitItemsModified
   rw [interp, norm_index]
   by_cases he : (k.w.partners p).isEmpty = true
   · simp [interp, evalCond, he]
   · simp only [Bool.not_eq_true] at he
     simp only [interp, evalCond, he, doAct, St.setW, partners_lock, Bool.not_false, Bool.not_true, if_true,
       Bool.false_eq_true, if_false]
-    rw [snapLoop_eq _ (visitK rec (.mutate (eventOp e))) (.slice (normIdx e)) (body_items rec p e)]
+    rw [snapLoop_eq (fun s : KWorld α × List Pair => ({ k := s.1, idx := .slice (normIdx e), upd := s.2 } : St α))
+      _ (visitU rec (.mutate (eventOp e))) (body_items rec p e) (k.w.partners p) ({ k with w := k.w.lock p }, [p])]
     simp only []
-    by_cases hp : p ∈ (List.foldl (visitK rec (.mutate (eventOp e))) { k with w := k.w.lock p }
-        (k.w.partners p)).w.locked <;> simp [hp]
+    by_cases hp : p ∈ (List.foldl (visitU rec (.mutate (eventOp e))) ({ k with w := k.w.lock p }, [p])
+        (k.w.partners p)).1.w.locked <;> simp [hp]
 
 /-! ### Conservativity: without armed triggers `cascadeK` is `Sync.cascade` -/
 
@@ -127,12 +134,15 @@ def lift (k : KWorld α) : Except Exc (World α × Option α) → Except Exc (KW
   | .ok (w', r) => .ok ({ k with w := w' }, r)
   | .error e => .error e
 
-/-- No armed trigger, and no table lists a collected object (every history of
-`stepK` without `arm` keeps this). -/
-def Quiet (k : KWorld α) : Prop := k.doom = [] ∧ ∀ e ∈ k.w.edges, e.dst.1 ∉ k.dead
+/-- No armed trigger, no table lists a collected object, and no table lists a
+partner twice (a dict holds a key once; every history of `stepK` without `arm`
+keeps this). -/
+def Quiet (k : KWorld α) : Prop :=
+  k.doom = [] ∧ (∀ e ∈ k.w.edges, e.dst.1 ∉ k.dead) ∧ k.w.edges.Nodup
 
 theorem Quiet.of_edges {k : KWorld α} (h : Quiet k) (w' : World α) (he : w'.edges = k.w.edges) :
-    Quiet { k with w := w' } := ⟨h.1, by intro e hm; rw [he] at hm; exact h.2 e hm⟩
+    Quiet { k with w := w' } :=
+  ⟨h.1, by intro e hm; rw [he] at hm; exact h.2.1 e hm, by show w'.edges.Nodup; rw [he]; exact h.2.2⟩
 
 theorem mem_partners {w : World α} {p q : Pair} (h : q ∈ w.partners p) : (⟨p, q⟩ : Edge) ∈ w.edges := by
   unfold World.partners at h
@@ -183,7 +193,100 @@ theorem handlerK_quiet {π : Type} (rec : Rec α) (rec' : World α → Pair → 
   unfold handlerK
   rw [if_neg (by simp [hne])]
   have hfold := foldK_quiet rec rec' req y hrec hframe k.w.edges (k.w.partners p) { k with w := k.w.lock p }
-    (hq.of_edges _ rfl) rfl (fun q hq' => hq.2 ⟨p, q⟩ (mem_partners hq'))
+    (hq.of_edges _ rfl) rfl (fun q hq' => hq.2.1 ⟨p, q⟩ (mem_partners hq'))
+  simp only []
+  rw [hfold]
+  have hst := foldl_sameTabs (rec := rec') (y := y) hframe (k.w.partners p) (k.w.lock p)
+  have hp : p ∈ ((k.w.partners p).foldl (visitPartner rec' y) (k.w.lock p)).locked := by
+    rw [hst.2.1]; simp [World.lock]
+  simp [hp]
+
+theorem partners_nodup {w : World α} (h : w.edges.Nodup) (p : Pair) : (w.partners p).Nodup := by
+  unfold World.partners
+  generalize w.edges = es at h
+  induction es with
+  | nil => exact List.nodup_nil
+  | cons e es ih =>
+    obtain ⟨hne, hnd⟩ := List.nodup_cons.mp h
+    by_cases hs : e.src = p
+    · have : List.filter (fun e => decide (e.src = p)) (e :: es) = e :: List.filter (fun e => decide (e.src = p)) es := by
+        simp [hs]
+      rw [this, List.map_cons]
+      refine List.nodup_cons.mpr ⟨?_, ih hnd⟩
+      intro hm
+      obtain ⟨e', he', hd⟩ := List.mem_map.mp hm
+      obtain ⟨hm', hs'⟩ := List.mem_filter.mp he'
+      have hs'' : e'.src = p := by simpa using hs'
+      have : e' = e := by cases e; cases e'; simp_all
+      exact hne (this ▸ hm')
+    · have : List.filter (fun e => decide (e.src = p)) (e :: es) = List.filter (fun e => decide (e.src = p)) es := by
+        simp [hs]
+      rw [this]
+      exact ih hnd
+
+theorem foldU_quiet {π : Type} (rec : Rec α) (rec' : World α → Pair → π → Except Exc (World α × Option α))
+    (req : Req α) (y : π)
+    (hrec : ∀ k q, Quiet k → rec k q req = lift k (rec' k.w q y))
+    (hframe : ∀ w q w' r, q ∉ w.locked → rec' w q y = .ok (w', r) → SameTabs w w')
+    (E0 : List Edge) :
+    ∀ (P : List Pair) (k : KWorld α) (U : List Pair), Quiet k → k.w.edges = E0 → (∀ q ∈ P, q.1 ∉ k.dead) →
+      P.Nodup → (∀ q ∈ P, q ∈ U → q ∈ k.w.locked) →
+      (P.foldl (visitU rec req) (k, U)).1 = { k with w := P.foldl (visitPartner rec' y) k.w } := by
+  intro P
+  induction P with
+  | nil => intro k U _ _ _ _ _; rfl
+  | cons q qs ih =>
+    intro k U hq hE hnd hnodup hU
+    have hd : q.1 ∉ k.dead := hnd q (List.mem_cons_self ..)
+    obtain ⟨hqn, hqs⟩ := List.nodup_cons.mp hnodup
+    simp only [List.foldl_cons]
+    have hstep : ∃ w' U', visitU rec req (k, U) q = ({ k with w := w' }, U') ∧ visitPartner rec' y k.w q = w' ∧
+        w'.edges = k.w.edges ∧ w'.locked = k.w.locked ∧ (∀ t, t ∈ U' → t ∈ U ∨ t = q) := by
+      unfold visitU visitPartner
+      simp only [hd, if_false]
+      by_cases hl : q ∈ k.w.locked
+      · exact ⟨k.w, U, by simp [hl], by simp [hl], rfl, rfl, fun t h => Or.inl h⟩
+      · have hu : q ∉ U := fun h => hl (hU q (List.mem_cons_self ..) h)
+        simp only [hl, hu, if_false]
+        rw [hrec k q hq]
+        cases hr : rec' k.w q y with
+        | error e => exact ⟨k.w, q :: U, rfl, rfl, rfl, rfl, fun t h => by
+            rcases List.mem_cons.mp h with h | h
+            · exact Or.inr h
+            · exact Or.inl h⟩
+        | ok x =>
+          obtain ⟨w', r⟩ := x
+          have hst := hframe k.w q w' r hl hr
+          exact ⟨w', q :: U, rfl, rfl, hst.1, hst.2.1, fun t h => by
+            rcases List.mem_cons.mp h with h | h
+            · exact Or.inr h
+            · exact Or.inl h⟩
+    obtain ⟨w', U', h1, h2, h3, h4, h5⟩ := hstep
+    rw [h1, h2]
+    exact ih { k with w := w' } U' (hq.of_edges w' h3) (by show w'.edges = E0; rw [h3, hE])
+      (fun q' hq' => hnd q' (List.mem_cons_of_mem _ hq')) hqs
+      (fun t ht htU => by
+        show t ∈ w'.locked
+        rw [h4]
+        rcases h5 t htU with h | h
+        · exact hU t (List.mem_cons_of_mem _ ht) h
+        · exact absurd (h ▸ ht) hqn)
+
+theorem handlerU_quiet {π : Type} (rec : Rec α) (rec' : World α → Pair → π → Except Exc (World α × Option α))
+    (req : Req α) (y : π)
+    (hrec : ∀ k q, Quiet k → rec k q req = lift k (rec' k.w q y))
+    (hframe : ∀ w q w' r, q ∉ w.locked → rec' w q y = .ok (w', r) → SameTabs w w')
+    (k : KWorld α) (p : Pair) (hq : Quiet k) (hne : (k.w.partners p).isEmpty = false) :
+    handlerU rec req k p =
+      ({ k with w := ((k.w.partners p).foldl (visitPartner rec' y) (k.w.lock p)).unlock p }, none) := by
+  unfold handlerU
+  rw [if_neg (by simp [hne])]
+  have hfold := foldU_quiet rec rec' req y hrec hframe k.w.edges (k.w.partners p) { k with w := k.w.lock p } [p]
+    (hq.of_edges _ rfl) rfl (fun q hq' => hq.2.1 ⟨p, q⟩ (mem_partners hq')) (partners_nodup hq.2.2 p)
+    (fun t _ ht => by
+      have : t = p := by simpa using ht
+      subst this
+      simp [World.lock])
   simp only []
   rw [hfold]
   have hst := foldl_sameTabs (rec := rec') (y := y) hframe (k.w.partners p) (k.w.lock p)
@@ -216,8 +319,8 @@ theorem after_apply_quiet [DecidableEq α] (E : Sync.Env α) {π : Type} (d : Na
     (rec' : World α → Pair → π → Except Exc (World α × Option α)) (req : Req α) (y : π)
     (hrec : ∀ k q, Quiet k → cascadeK E d k q req = lift k (rec' k.w q y))
     (hframe : ∀ w q w' r, q ∉ w.locked → rec' w q y = .ok (w', r) → SameTabs w w')
-    (k : KWorld α) (p : Pair) (w1 : World α) (hq : Quiet k) (he : w1.edges = k.w.edges) :
-    swallow (handlerK (cascadeK E d) req
+    (k : KWorld α) (p : Pair) (w1 : World α) (hq : Quiet k) (he : w1.edges = k.w.edges) (upd : Bool) :
+    swallow ((if upd then handlerU else handlerK) (cascadeK E d) req
         (if notified k.w w1 p then fire { k with w := w1 } p else { k with w := w1 }) p) =
       { k with w := if (w1.partners p).isEmpty then w1
                     else ((w1.partners p).foldl (visitPartner rec' y) (w1.lock p)).unlock p } := by
@@ -228,10 +331,15 @@ theorem after_apply_quiet [DecidableEq α] (E : Sync.Env α) {π : Type} (d : Na
   rw [hk1]
   have hq1 : Quiet { k with w := w1 } := hq.of_edges w1 he
   by_cases hne : (w1.partners p).isEmpty = true
-  · simp [handlerK, hne, swallow]
+  · cases upd <;> simp [handlerK, handlerU, hne, swallow]
   · simp only [Bool.not_eq_true] at hne
-    rw [handlerK_quiet (cascadeK E d) rec' req y hrec hframe _ p hq1 hne]
-    simp [swallow, hne]
+    cases upd
+    · simp only [Bool.false_eq_true, if_false]
+      rw [handlerK_quiet (cascadeK E d) rec' req y hrec hframe _ p hq1 hne]
+      simp [swallow, hne]
+    · simp only [if_true]
+      rw [handlerU_quiet (cascadeK E d) rec' req y hrec hframe _ p hq1 hne]
+      simp [swallow, hne]
 
 theorem cascadeK_assign [DecidableEq α] (E : Sync.Env α) (d : Nat) :
     ∀ (k : KWorld α) (p : Pair) (v : AVal α), Quiet k →
@@ -257,8 +365,10 @@ theorem cascadeK_assign [DecidableEq α] (E : Sync.Env α) (d : Nat) :
         · rfl
       | some new =>
         simp only [Option.map_some, runHandlerK, handlerModified]
-        rw [after_apply_quiet E d (cascade (applyAssign E) d) (.assign new) new
-          (fun k q hk => ih k q new hk) (fun w q w' r => cascade_frame (local_assign E) d w q new w' r) k p w1 hq he]
+        have hA := after_apply_quiet E d (cascade (applyAssign E) d) (.assign new) new
+          (fun k q hk => ih k q new hk) (fun w q w' r => cascade_frame (local_assign E) d w q new w' r) k p w1 hq he false
+        simp only [Bool.false_eq_true, if_false] at hA
+        rw [hA]
         by_cases hne : (w1.partners p).isEmpty = true <;> simp [hne, lift]
 
 theorem cascadeK_mutate [DecidableEq α] (E : Sync.Env α) (d : Nat) :
@@ -286,9 +396,11 @@ theorem cascadeK_mutate [DecidableEq α] (E : Sync.Env α) (d : Nat) :
         · rfl
       | some e =>
         simp only [Option.map_some, runHandlerK, handlerItems]
-        rw [after_apply_quiet E d (cascade (applyMutate E) d) (.mutate (eventOp e)) (eventOp e)
+        have hA := after_apply_quiet E d (cascade (applyMutate E) d) (.mutate (eventOp e)) (eventOp e)
           (fun k q hk => ih k q (eventOp e) hk)
-          (fun w q w' r => cascade_frame (local_mutate E) d w q (eventOp e) w' r) k p w1 hq he]
+          (fun w q w' r => cascade_frame (local_mutate E) d w q (eventOp e) w' r) k p w1 hq he true
+        simp only [if_true] at hA
+        rw [hA]
         by_cases hne : (w1.partners p).isEmpty = true <;> simp [hne, lift]
 
 /-! ### The lock protocol with partner death during the propagation (repaired F97) -/
@@ -392,6 +504,49 @@ theorem handlerK_calm (rec : Rec α) (req : Req α)
     rw [List.filter_cons_of_neg (by simp)]
     exact filter_ne_self_of_not_mem hp
 
+theorem foldU_calm (rec : Rec α) (req : Req α)
+    (hrec : ∀ k q k' r, q ∉ k.w.locked → rec k q req = .ok (k', r) → Calm k k') :
+    ∀ (P : List Pair) (s : KWorld α × List Pair), Calm s.1 (P.foldl (visitU rec req) s).1 := by
+  intro P
+  induction P with
+  | nil => intro s; exact Calm.refl s.1
+  | cons q qs ih =>
+    intro s
+    simp only [List.foldl_cons]
+    refine Calm.trans ?_ (ih _)
+    unfold visitU
+    split
+    · exact Calm.refl _
+    · split
+      · exact Calm.refl _
+      · rename_i hl
+        split
+        · exact Calm.refl _
+        · split
+          · rename_i k' r hr
+            exact hrec s.1 q k' r hl hr
+          · exact Calm.refl _
+
+theorem handlerU_calm (rec : Rec α) (req : Req α)
+    (hrec : ∀ k q k' r, q ∉ k.w.locked → rec k q req = .ok (k', r) → Calm k k')
+    (k : KWorld α) (p : Pair) (hp : p ∉ k.w.locked) :
+    Calm k (handlerU rec req k p).1 ∧ (handlerU rec req k p).2 = none := by
+  unfold handlerU
+  split
+  · exact ⟨Calm.refl k, rfl⟩
+  · have hc := foldU_calm rec req hrec (k.w.partners p) ({ k with w := k.w.lock p }, [p])
+    have hin : p ∈ (List.foldl (visitU rec req) ({ k with w := k.w.lock p }, [p]) (k.w.partners p)).1.w.locked := by
+      rw [hc.1]; simp [World.lock]
+    simp only [hin, if_true]
+    refine ⟨⟨?_, hc.2⟩, trivial⟩
+    show (World.unlock _ p).locked = k.w.locked
+    unfold World.unlock
+    simp only
+    rw [hc.1]
+    show List.filter (fun x => decide (x ≠ p)) (p :: k.w.locked) = k.w.locked
+    rw [List.filter_cons_of_neg (by simp)]
+    exact filter_ne_self_of_not_mem hp
+
 theorem cascadeK_calm [DecidableEq α] (E : Sync.Env α) (d : Nat) :
     ∀ (k : KWorld α) (p : Pair) (req : Req α) (k' : KWorld α) (r : Option α),
       p ∉ k.w.locked → cascadeK E d k p req = .ok (k', r) → Calm k k' := by
@@ -433,11 +588,11 @@ theorem cascadeK_calm [DecidableEq α] (E : Sync.Env α) (d : Nat) :
           subst hn
           exact hc
         | event e =>
-          obtain ⟨hc, hn⟩ := handlerK_calm (cascadeK E d) (.mutate (eventOp e))
+          obtain ⟨hc, hn⟩ := handlerU_calm (cascadeK E d) (.mutate (eventOp e))
             (fun k q k' r => ih k q (.mutate (eventOp e)) k' r) _ p hp1
           simp only [runHandlerK, handlerItems]
           revert hc hn
-          generalize handlerK (cascadeK E d) (.mutate (eventOp e)) _ p = res
+          generalize handlerU (cascadeK E d) (.mutate (eventOp e)) _ p = res
           obtain ⟨k2, ex⟩ := res
           intro hc hn
           simp only at hn
